@@ -52,6 +52,7 @@ LineOk(r) ==
     [] r.op = "keyExpand" -> r.out = KeyExpandOctets(r.key)
     [] r.op = "wblE"     -> r.out = WBLEncr(r.in, r.key)
     [] r.op = "wblD"     -> r.out = WBLDecr(r.in, r.key)
+    [] r.op = "wblR"     -> r.out = WBLEncrFrom(r.in, r.key, r.k)
     [] r.op = "compr"    -> r.out = Sigma2(r.in) /\ r.tag = Sigma1(r.in)
     [] r.op = "ecbE"     -> Ok0(r) /\ r.out = ECBEncr(r.in, r.key)
     [] r.op = "ecbD"     -> Ok0(r) /\ r.out = ECBDecr(r.in, r.key)
